@@ -147,6 +147,7 @@ class History:
         s = result.cffi_tensor
         sa = struct_addr(s)
         rec = {"saddr": sa, "alive": True, "blocks": []}
+        intact = True
         for a in array_addrs(s):
             found, serial, live, frees = _call4(_lib.interpose_watch, a)
             bi = len(self.blocks)
@@ -155,13 +156,15 @@ class History:
             if not found:
                 self.oracle.append({"kind": "untracked-block", "where": f"eval->{out}", "block": bi})
             elif not live or frees:
+                intact = False
                 self.oracle.append({"kind": "freed-before-return", "where": f"eval->{out}", "block": bi,
                                     "frees": frees})
             elif not (s0 < serial <= s1):
                 self.oracle.append({"kind": "block-not-allocated-by-this-call", "where": f"eval->{out}",
                                     "block": bi})
         self.records.append(rec)
-        self.snap[sa] = (result.taco_indices, result.taco_vals)
+        if intact:  # never read through a pointer the allocator already took back
+            self.snap[sa] = (result.taco_indices, result.taco_vals)
         del s
         self.names[out] = result
 
@@ -173,8 +176,12 @@ class History:
     def op_read(self, n):
         v = self.names[n]
         t = v if isinstance(v, Tensor) else Tensor(v)
-        got = (t.taco_indices, t.taco_vals)
         sa = struct_addr(t.cffi_tensor)
+        for rec in self.records:  # do not dereference arrays that have already been released
+            if rec["alive"] and rec["saddr"] == sa and any(self.counts()[bi] for bi in rec["blocks"]):
+                self.oracle.append({"kind": "read-of-freed-array", "where": f"read {n}"})
+                return
+        got = (t.taco_indices, t.taco_vals)
         exp = self.snap.get(sa)
         if exp is not None and got != exp:
             self.oracle.append({"kind": "corrupt-read", "where": f"read {n}", "expected": repr(exp), "got": repr(got)})
@@ -207,6 +214,9 @@ class History:
                 raise RuntimeError(f"unknown op {op!r}")
         except (KeyError, TypeError, AttributeError, pickle.PicklingError) as ex:
             return "rejected:" + type(ex).__name__
+        except Exception as ex:  # anything else on a well-formed operation is a failure of the library
+            self.oracle.append({"kind": "exception", "where": str(op), "error": f"{type(ex).__name__}: {ex}"[:300]})
+            return "error:" + type(ex).__name__
         return "ok"
 
 
